@@ -66,6 +66,7 @@ type ROp struct {
 	Kind string
 	Cap  int
 	Stats bool
+	Pre  bool // the cache was used before by another reader of the same stream (it holds that reader's blocks)
 }
 
 // LastSrcReads / LastSrcSeeks: underlying call counts of the most recent scenario (for
@@ -229,9 +230,23 @@ func RunReader(t *tr.Writer, sc RScenario) []tr.M {
 			br.Blocked = o.V
 			emit("blocked", tr.M{"v": o.V})
 		case "setcache":
-			br.SetCache(newCacheOf(o.Kind, o.Cap, o.Stats))
+			c := newCacheOf(o.Kind, o.Cap, o.Stats)
+			if o.Pre && c != nil {
+				// another reader of the same bytes reads them through this cache first and is
+				// closed: the cache arrives holding blocks that belong to that reader
+				if other, err := bgzf.NewReader(bytes.NewReader(stream), 1); err == nil {
+					other.SetCache(c)
+					watch.Call(Marker, func() {
+						io.Copy(io.Discard, other)
+						other.Seek(bgzf.Offset{})
+						io.CopyN(io.Discard, other, 1)
+						other.Close()
+					})
+				}
+			}
+			br.SetCache(c)
 			// not part of the replies compared with the reference run
-			t.Ev("setcache", tr.M{"kind": o.Kind, "cap": o.Cap, "stats": o.Stats})
+			t.Ev("setcache", tr.M{"kind": o.Kind, "cap": o.Cap, "stats": o.Stats, "pre": o.Pre})
 		case "close":
 			var e error
 			res := watch.Call(Marker, func() { e = br.Close() })
